@@ -6,7 +6,10 @@
       regexp (787-1051: SRE -> NFA), regexp-advance!/posse-advance! (392-497: NFA run),
       regexp-matches / regexp-matches? / regexp-search (518-531),
       regexp-match-submatch-start/end (183-190), char-set-ci (67-73), match/bos..nwb (563-587),
-      sre-expand-reps (771-785), sre->char-set (712-757). *)
+      sre-expand-reps (771-785), sre->char-set (712-757), regexp-fold (1069-1088).
+    Mirrors of leaf functions, tied at function level through the module environment:
+      [anchor_ok] ~ match/bos..match/nwb, [expand_reps] ~ sre-expand-reps, [match_ge] ~ regexp-match>=?;
+      [fold_from] mirrors the loop of regexp-fold.  The NFA itself is not modelled. *)
 From ChibiV Require Export C20.Chars.
 Local Open Scope N_scope.
 
